@@ -579,6 +579,7 @@ func ruleForLabels(w *World, r *RuleResult) {
 	}
 	d := newDedup(r)
 	found := false
+	pendingFlags := map[string]bool{} // boolean fields that guard the emission ("labels not yet written")
 	for _, s := range m.states {
 		ps, _ := w.Paths(s)
 		for _, p := range ps {
@@ -590,11 +591,27 @@ func ruleForLabels(w *World, r *RuleResult) {
 					continue
 				}
 				val := stripConv(structField(v, "val"))
-				if val == nil || val.Op != "elem" {
+				if val == nil {
 					continue
 				}
-				b := stripConv(val.A[0])
-				if b.Op != "sel" || b.A[0].Op != "deref" || !mangledField(w, m, b.S) {
+				switch {
+				case val.Op == "elem":
+					b := stripConv(val.A[0])
+					if b.Op != "sel" || b.A[0].Op != "deref" || !mangledField(w, m, b.S) {
+						continue
+					}
+				case val.Op == "call" && val.S == "fmt.Sprintf" && len(val.A) > 0 && val.A[0].Op == "str" && strings.Contains(val.A[0].S, "__for"):
+					// the mangled name computed on the spot; the site that substitutes references inside
+					// the body (it compares body tokens with the labels) is WIRE.for's business
+					if hasCond(p, func(a *T, vv bool) bool { return strings.Contains(a.Show(), "forContent") }) {
+						continue
+					}
+					for _, cd := range p.Conds {
+						if a := stripConv(cd.Atom); a.Op == "sel" && a.A[0].Op == "deref" && cd.Val {
+							pendingFlags[a.S] = true
+						}
+					}
+				default:
 					continue
 				}
 				found = true
@@ -607,7 +624,7 @@ func ruleForLabels(w *World, r *RuleResult) {
 			// after the emission loop the pending list is cleared on the path that leaves the loop
 			for i := range p.Events {
 				e := &p.Events[i]
-				if e.Kind == "store" && e.LV.Op == "sel" && mangledField(w, m, e.LV.S) && e.Val.Op == "nil" {
+				if e.Kind == "store" && e.LV.Op == "sel" && ((mangledField(w, m, e.LV.S) && e.Val.Op == "nil") || (pendingFlags[e.LV.S] && e.Val.IsConstVal(0))) {
 					d.add(true, s.Name()+"/cleared", w.Pos(instrPosE(e)), "pending block labels cleared after emission (emitted once)", "")
 				}
 			}
